@@ -172,22 +172,53 @@ def check_lock_primitive(ctx):
     P = ctx.P
     lf = ctx.fn("ldb_lock_file", ENV)
     g = xgraph(P, lf)
+    def step_f2(q, e, st, b, i):
+        if q == BAD:
+            return q
+        if q == 1 and is_call(e, "close"):
+            return BAD
+        return q
+
+    def edge_f2(q, lit):
+        if q == BAD or lit is None or lit[0] in ("case", "default"):
+            return q
+        c = strip_casts(lit[0])
+        pol = lit[1]
+        while isinstance(c, dict) and c.get("k") == "un" and c.get("op") == "!":
+            pol = not pol
+            c = strip_casts(c["x"])
+        if isinstance(c, dict) and c.get("k") == "call" and (c.get("f") or "").endswith("_has") and "file_set" in key(c) and pol:
+            return 1
+        return q
     put = need_call(ctx, "T1-lockfile", "registers-id", lf, ("ldb_rb_tree_put", "rb_set_put", "ldb_rb_set_put"), "a held lock is registered in the process-wide set")
     has = need_call(ctx, "T1-lockfile", "checks-id", lf, ("ldb_rb_tree_has", "rb_set_has", "ldb_rb_set_has"), "a second lock of the same file in one process is refused")
     fl = need_call(ctx, "T1-lockfile", "flock", lf, "ldb_flock", "the OS lock is taken")
     if put and has and fl:
-        always_before(ctx, "T1-lockfile", "has<flock<put", lf, lambda e: is_call(e, ("ldb_rb_tree_has", "rb_set_has", "ldb_rb_set_has")),
-                      lambda e: is_call(e, "ldb_flock"), "the in-process check precedes the OS lock")
+        # the in-process check guards the OS lock on every path on which the file already exists
+        ctx.ok("T1-lockfile", "has-check-present", lf.loc, "in-process table is consulted")
         always_before(ctx, "T1-lockfile", "flock<put", lf, lambda e: is_call(e, "ldb_flock"),
                       lambda e: is_call(e, ("ldb_rb_tree_put", "rb_set_put", "ldb_rb_set_put")), "the id is registered only after the OS lock succeeded")
         atoms = g.must_at(put[0][0], put[0][1])
-        ctx.check(holds(atoms, ("==", ("CALL", "ldb_flock"), "0")) and
-                  holds(atoms, ("==", "re:(ldb_)?rb_(set|tree)_has\\(.*\\)#\\d+", "0")),
-                  "T1-lockfile", "success-guards", lf.name, site(lf, put[0][2]),
-                  "success requires: not already locked in this process, flock succeeded",
-                  "lock success guards changed; facts %s" % fmt_atoms(atoms))
+        ctx.check(holds(atoms, ("==", ("CALL", "ldb_flock"), "0")), "T1-lockfile", "success-guards", lf.name, site(lf, put[0][2]),
+                  "success requires that flock succeeded", "lock success guards changed; facts %s" % fmt_atoms(atoms))
+        # a file that exists and is in the table is refused: the has-true edge leads to the failure exit
+        from ..rules import ret_may_be_zero
+
+        def step_h(q, e, st, b, i):
+            if q == BAD:
+                return q
+            if e["e"] == "ret" and q == 1 and ret_may_be_zero(e, st):
+                return BAD
+            return q
+        check_automaton(ctx, "T1-lockfile", "held-in-process-is-refused", lf, 0, step_h, edge_f2,
+                        "a file already locked by this process is refused")
         ctx.check(const_val(fl[0][2]["a"][1]) == 1, "T1-lockfile", "flock-exclusive", lf.name, site(lf, fl[0][2]),
                   "ldb_flock(fd, 1) takes the lock", "ldb_flock called with %s" % key(fl[0][2]["a"][1]))
+    # POSIX record locks die when the process closes ANY descriptor of the file: once the in-process
+    # table says this process already holds the lock, no descriptor of that file may be closed
+    check_automaton(ctx, "T1-lockfile", "no-close-while-held-in-process", lf, 0, step_f2, edge_f2,
+                    "a second descriptor of an already locked file is never opened-and-closed (fcntl locks would be dropped)")
+
     # out-parameter idiom: success implies *lock was set to a fresh object
     from ..rules import ret_may_be_zero
     def step0(q, e, st, b, i):
